@@ -129,7 +129,7 @@ func (g *gen) respell(name string) string {
 	}
 	if g.r.Chance(0.25) {
 		// a quoted identifier that names the same directory in another way
-		return []string{"\"" + name + "/\"", "\"./" + name + "\"", "\"" + name + "/.\""}[g.r.Intn(3)]
+		return []string{"\"" + name + "/\"", "\"./" + name + "\"", "\"" + name + "/.\"", "\"" + name + "\ue0ff\"", "\"" + name[:1] + "\ue0c3" + name[1:] + "\""}[g.r.Intn(5)]
 	}
 	subst := [][2]string{{"i", "\u0130"}, {"k", "\u212a"}, {"s", "\u017f"}}
 	p := subst[g.r.Intn(3)]
@@ -1036,9 +1036,13 @@ func (g *gen) stmtRaw(db *MDB, t *MTable) Stmt {
 		func() string {
 			return fmt.Sprintf("INSERT INTO sys_schema VALUES ('%s', 'ghost', %d, 0)", t.Name, g.r.Intn(4))
 		},
-		func() string { return fmt.Sprintf("UPDATE sys_pages SET file_offset = %d", g.r.Intn(9)*4096+g.r.Intn(2)*6) },
+		func() string {
+			return fmt.Sprintf("UPDATE sys_pages SET file_offset = %d", g.r.Intn(9)*4096+g.r.Intn(2)*6)
+		},
 		func() string { return fmt.Sprintf("DELETE FROM sys_pages WHERE table_name = '%s'", t.Name) },
-		func() string { return fmt.Sprintf("UPDATE sys_schema SET field_type = %d WHERE table_name = '%s'", g.r.Intn(9), t.Name) },
+		func() string {
+			return fmt.Sprintf("UPDATE sys_schema SET field_type = %d WHERE table_name = '%s'", g.r.Intn(9), t.Name)
+		},
 		func() string { return "DELETE FROM sys_schema" },
 		func() string { return fmt.Sprintf("INSERT INTO sys_pages VALUES ('%s', 4096)", t.Name) },
 		func() string { return fmt.Sprintf("DELETE FROM %s WHERE %s %s %s", t.Name, col(), op(), lit()) },
@@ -1534,7 +1538,9 @@ func (g *gen) genStmts(n int, small bool) []Stmt {
 			if g.r.Chance(0.2) {
 				// names that are paths: nothing of the kind may be created or selected
 				base := g.m.Order[g.r.Intn(len(g.m.Order))]
-				emit(Stmt{Kind: KCreateDB, DB: []string{"\"" + base + "/sub\"", "\"" + base + "/tbl\"", "\"../x\"", "\"a/b\""}[g.r.Intn(4)]})
+				// (the last two are not valid UTF-8 - see rawName -: lower-casing maps
+				// every bad byte to U+FFFD, so such names are not names of their own)
+				emit(Stmt{Kind: KCreateDB, DB: []string{"\"" + base + "/sub\"", "\"" + base + "/tbl\"", "\"../x\"", "\"a/b\"", "\"" + base + "\ue0ff\"", "\"a\ue0feb\""}[g.r.Intn(6)]})
 			} else if g.r.Chance(0.5) {
 				emit(Stmt{Kind: KUse, DB: "nosuchdb"})
 			} else {
